@@ -56,6 +56,8 @@ func dispatch(kind string, args []*Sexp) (out *Sexp) {
 	switch kind {
 	case "foldbin", "foldun", "litfalsy":
 		return runFold(kind, args)
+	case "optexpr":
+		return runOptExpr(args)
 	case "optprog":
 		return runOptProg(args)
 	}
